@@ -721,3 +721,21 @@ fn exp_btree() {
     assert!(s == 34 && c == 2);
     core::mem::forget(m);
 }
+
+#[cfg(kani)]
+#[kani::proof]
+#[kani::stub(alloc::fmt::format, crate::c06::stub_format)]
+fn exp_parse_body() {
+    let mut b = [0u8; 5];
+    for i in 0..5 {
+        let x: u8 = kani::any();
+        kani::assume(x == b' ' || x == b'-' || (x >= b'0' && x <= b'9'));
+        b[i] = x;
+    }
+    let s = unsafe { core::str::from_utf8_unchecked(&b) };
+    let r = MatrixConnector::verif_parse_body(s);
+    if let Ok((a, c, d)) = &r {
+        kani::cover!(*a == 1 && *c == 2 && *d == 3);
+    }
+    core::mem::forget(r);
+}
